@@ -134,6 +134,10 @@ class SyncInterpreter(BaseInterpreter[TContext, TEvent]):
         #: Serialises the claim of the drain loop between the caller's thread
         #: and the engine's own timer / delayed-send / actor threads.
         self._drain_lock = threading.Lock()
+        #: Events this machine queued onto itself during the current drain,
+        #: and the thread running that drain.
+        self._self_raised: int = 0
+        self._drain_thread: Optional[int] = None
         self._after_threads: Dict[str, threading.Thread] = {}
         self._after_events: Dict[str, threading.Event] = {}
         #: Cancellation flags for pending delayed sends, released by `stop()`.
@@ -315,6 +319,7 @@ class SyncInterpreter(BaseInterpreter[TContext, TEvent]):
             return
 
         event_obj = self._prepare_event(event_or_type, **payload)
+        self._note_self_raised(1)
         self._event_queue.append(event_obj)
         self._process_event_queue()
 
@@ -330,9 +335,26 @@ class SyncInterpreter(BaseInterpreter[TContext, TEvent]):
 
         for event_or_type in events:
             event_obj = self._prepare_event(event_or_type)
+            self._note_self_raised(1)
             self._event_queue.append(event_obj)
 
         self._process_event_queue()
+
+    def _note_self_raised(self, count: int) -> None:
+        """Counts events this machine sends to itself while it is processing.
+
+        Only those can form a self-feeding chain, so only those are bounded;
+        events sent from outside (the caller, timer threads, other actors) are
+        never counted and therefore never throttled or discarded.
+
+        Args:
+            count (int): Number of events about to be queued.
+        """
+        if (
+            self._is_processing
+            and self._drain_thread == threading.get_ident()
+        ):
+            self._self_raised += count
 
     def _process_event_queue(self) -> None:
         """Processes all events in the queue until it is empty.
@@ -354,7 +376,15 @@ class SyncInterpreter(BaseInterpreter[TContext, TEvent]):
         #    path, leaving this loop unbounded: `send()` never returned, with
         #    no timeout and no way to interrupt it. The same ceiling now
         #    applies to both paths.
-        processed = 0
+        #
+        # 🏛️ Architecture decision: count SELF-RAISED events, not processed
+        #    ones. Counting every processed event made the bound apply to
+        #    external traffic as well: `send_events()` with more than
+        #    `max_iterations` events processed the first thousand and
+        #    silently discarded the rest. The async engine already measures
+        #    the raise chain only.
+        self._self_raised = 0
+        self._drain_thread = threading.get_ident()
         limit = getattr(self.machine, "max_iterations", 1000)
         try:
             while self._event_queue:
@@ -366,10 +396,9 @@ class SyncInterpreter(BaseInterpreter[TContext, TEvent]):
                 if self.status != "running":
                     self._event_queue.clear()
                     break
-                processed += 1
-                if processed > limit:
+                if self._self_raised > limit:
                     logger.error(
-                        "🛑 Exceeded %d queued events in a single macrostep on "
+                        "🛑 Exceeded %d self-raised events in a single macrostep on "
                         "'%s'. This usually means an action raises the event "
                         "that triggers it. Discarding %d pending event(s).",
                         limit,
